@@ -1,9 +1,10 @@
 #!/usr/bin/env python3
 """import_seed.py <prop> <changeN> <short-slug> — copy a confirmed seeded change into /verif/seeded/<prop>-<slug>/."""
 import json, os, shutil, sys, re
-prop, change, slug = sys.argv[1:4]
-src = f"/tmp/wt-out/{prop}/{change}"
-conf = json.load(open(f"/tmp/confirm-out/{prop}-{change}.json"))
+srcname, change, slug = sys.argv[1:4]
+prop = srcname[:3]
+src = f"/tmp/wt-out/{srcname}/{change}"
+conf = json.load(open(f"/tmp/confirm-out/{srcname}-{change}.json"))
 assert conf.get("confirmed"), conf
 dst = f"/verif/seeded/{prop}-{slug}"
 os.makedirs(dst, exist_ok=True)
